@@ -371,6 +371,64 @@ def observe(mab, lp, nbh, multi=True):
     return out
 
 
+def _arm_changes_between_queries(prop, env):
+    """queries before and after arm changes - also after a remove / add pair that keeps the number of arms, with no query in
+    between - so that anything a query leaves behind (cached label arrays, expectations) meets a changed arm list"""
+    rng = env['rng']
+    for lp, nbh in all_configs(env):
+        binary = is_binary_lp(lp)
+        d = 2 if needs_ctx(lp, nbh) else 0
+        rows = rand_rows(rng, 10, ARMS, binary, d)
+        more = rand_rows(rng, 6, [2, 3, 9], binary, d)
+        more[0][0] = 9
+        plans = [[['fit'] + rows, 'Q', ['remove_arm', 1], 'Q', ['add_arm', 9], 'Q', ['partial_fit'] + more, 'Q'],
+                 [['fit'] + rows, 'Q', ['remove_arm', 2], ['add_arm', 8], 'Q', ['remove_arm', 1], ['add_arm', 2], 'Q'],
+                 [['fit'] + rows, 'Q', ['add_arm', 5], ['remove_arm', 3], 'Q', ['fit'] + rows, 'Q']]
+        for plan in plans:
+            calls = [c for c in plan if c != 'Q']
+            case = {'arms': ARMS, 'lp': lp, 'np': nbh, 'calls': calls, 'queries_after_calls': [], 'seed': 12}
+            m = build(case)
+            cur = list(ARMS)
+            done = 0
+            for c in plan:
+                if c != 'Q':
+                    try:
+                        call(m, c)
+                    except Exception as e:      # noqa
+                        if prop == 'C08' and c[0] in ('add_arm', 'remove_arm'):
+                            raise Failure('C08', '%s raised %r' % (c[0], e), dict(case, calls=calls[:done + 1]), repr(e),
+                                          'no exception', MODULE_OF.get((nbh or lp)[0]))
+                        break       # (a training call that fails, e.g. an arm of the batch was removed: not this check)
+                    done += 1
+                    if c[0] == 'add_arm':
+                        cur.append(c[1])
+                    if c[0] == 'remove_arm':
+                        cur.remove(c[1])
+                    continue
+                case['queries_after_calls'].append(done)
+                for q in queries_for(lp, nbh):
+                    twin = copy.deepcopy(m)
+                    e = m.predict_expectations(q)
+                    p = twin.predict(q)
+                    m.predict(q)
+                    es = e if isinstance(e, list) else [e]
+                    ps = p if isinstance(p, list) else [p]
+                    for ee, pp in zip(es, ps):
+                        if prop == 'C08' and (list(ee.keys()) != cur or pp not in cur):
+                            raise Failure('C08', 'after %d calls (queries in between) the outputs do not range over the arms %r: '
+                                          'predict gives %r, the expectations have keys %r' % (done, cur, pp, list(ee.keys())),
+                                          dict(case, calls=calls[:done]), [list(ee.keys()), pp], cur,
+                                          MODULE_OF.get((nbh or lp)[0]))
+                        vals = list(ee.values())
+                        if prop == 'C09' and not any(isinstance(v, float) and math.isnan(v) for v in vals):
+                            best = [a for a in ee if ee[a] == max(vals)][0]
+                            if pp != best:
+                                raise Failure('C09', 'after %d calls (queries in between) predict returns %r, the first arg-max '
+                                              'of the expectations from the same stream position is %r' % (done, pp, best),
+                                              dict(case, calls=calls[:done]), pp, ee, MODULE_OF.get((nbh or lp)[0]))
+            yield case
+
+
 # =========================================================================================== C04
 def check_C04(env):
     rng = env['rng']
@@ -606,6 +664,8 @@ def check_C08(env):
         yield case
 
 
+    for case in _arm_changes_between_queries('C08', env):
+        yield case
     # one result per query row whatever the number of jobs (3 and 5 rows over 2 jobs, 7 over 3)
     for lp, nbh in [(CF_OUT[0], NBH_EXACT[0]), (CF_OUT[1], NBH_EXACT[3]), (CF_OUT[0], NBH_OTHER[0]), (CF_OUT[0], NBH_OTHER[1]),
                     (TREE_LPS[0], NBH_OTHER[3])]:
@@ -683,6 +743,8 @@ def check_C09(env):
                         raise Failure('C09', 'predict returns %r, the first arg-max of the expectations from the same '
                                       'stream position is %r' % (pp, best), case, pp, ee, MODULE_OF.get((nbh or lp)[0]))
             yield case
+    for case in _arm_changes_between_queries('C09', env):
+        yield case
 
 
 # =========================================================================================== C10
@@ -777,6 +839,27 @@ def check_C14(env):
                                                                                                  ['partial_fit'] + rows3]),
                           ra, rb, MODULE_OF.get((nbh or lp)[0]))
         yield case
+        # a bandit built without a binarizer gets its first one from add_arm: observations stored before stay as they
+        # are, later ones are converted exactly once (the binarizer is not the identity on 0 / 1)
+        flip = lambda rows: [rows[0], [core.binz_flip(a_, r_) for a_, r_ in zip(rows[0], rows[1])]] + rows[2:]   # noqa: E731
+        rows1 = rand_rows(rng, 10, ARMS, True, d)
+        later = [rand_rows(rng, 5, ARMS + [9], True, d), rand_rows(rng, 4, ARMS + [9], True, d)]
+        case2 = {'arms': ARMS, 'lp': plain, 'np': nbh, 'seed': 9,
+                 'calls': [['fit'] + rows1, ['add_arm', 9, 'binz_flip']] + [['partial_fit'] + r for r in later]}
+        a, b = build(case2), build(case2)
+        call(a, ['fit'] + rows1)
+        call(b, ['fit'] + rows1)
+        call(a, ['add_arm', 9, 'binz_flip'])
+        call(b, ['add_arm', 9])
+        for r in later:
+            call(a, ['partial_fit'] + r)
+            call(b, ['partial_fit'] + flip(r))
+            ra, rb = observe(a, plain, nbh), observe(b, plain, nbh)
+            if not same_result(ra, rb, 0):
+                raise Failure('C14', 'a binarizer installed by add_arm on a bandit built without one: the bandit differs from a '
+                              'binarizer-free bandit fed the converted rewards (%s)' % (nbh and nbh[0]), case2, ra, rb,
+                              MODULE_OF.get((nbh or lp)[0]))
+        yield case2
 
 
 # =========================================================================================== C17
@@ -888,6 +971,26 @@ def check_C18(env):
             raise Failure('C18', 'the caller\'s arm list or policy tuple was modified', case, [arms, repr(lpo), repr(npo)],
                           [snap[0], repr(snap[1]), repr(snap[2])], MODULE_OF.get((nbh or lp)[0]))
         yield case
+    # the arm-feature dictionary handed to warm_start is the caller's: same keys, the very same value objects, unchanged
+    for lp in CF_STATE[:5] + LIN_DET[:2]:
+        if not in_focus(env, lp):
+            continue
+        ctx = lp[0].startswith('Lin')
+        rows = rand_rows(rng, 8, [1, 2], is_binary_lp(lp), 2 if ctx else 0)
+        for mk in (lambda v: list(v), lambda v: tuple(v), lambda v: np.array(v, dtype=int)):
+            feats = {1: mk([1, 0, 2]), 2: mk([0, 1, 0]), 3: mk([1, 0, 1])}
+            held = dict(feats)
+            snap = [(k, type(v).__name__, repr(v), getattr(v, 'dtype', None)) for k, v in feats.items()]
+            m = build({'arms': ARMS, 'lp': lp, 'seed': 4})
+            m.fit(*rows)
+            m.warm_start(feats, 0.9)
+            now = [(k, type(v).__name__, repr(v), getattr(v, 'dtype', None)) for k, v in feats.items()]
+            if now != snap or any(feats[k] is not held[k] for k in held):
+                raise Failure('C18', 'warm_start modified the caller\'s arm-feature dictionary (%s)' % lp[0],
+                              {'arms': ARMS, 'lp': lp, 'seed': 4,
+                               'calls': [['fit'] + rows, ['warm_start', [[k, [int(x) for x in v]] for k, v in held.items()], 0.9]]},
+                              [list(map(str, t)) for t in now], [list(map(str, t)) for t in snap], 'base_mab')
+        yield {}
     # a parameter dictionary handed to a policy tuple is the caller's
     lp, nbh = TREE_LPS[0], ['TreeBandit', {'tree_parameters': {'max_depth': 3}}]
     if in_focus(env, lp, nbh):
@@ -935,6 +1038,26 @@ def check_C19(env):
                 if not same_result(got2, want2, 0):
                     raise Failure('C19', 'a copy / pickle of %s/%s diverges under the same continuation' % (lp[0], nbh and nbh[0]),
                                   case, got2, want2, MODULE_OF.get((nbh or lp)[0]))
+        # after arm changes (the bandit `m` of the last stage has been trained on, and arm 6 added; one more removed here)
+        case3 = dict(case, calls=h + cont + [['remove_arm', 2]])
+        m.remove_arm(2)
+        try:
+            clones = [copy.deepcopy(m)] + [pickle.loads(pickle.dumps(m, protocol=p)) for p in (2, 5)]
+        except Exception as e:      # noqa
+            raise Failure('C19', 'after add_arm / remove_arm %s/%s cannot be copied or pickled: %r' % (lp[0], nbh and nbh[0], e),
+                          case3, repr(e), 'a restored copy', MODULE_OF.get((nbh or lp)[0]))
+        more = [['partial_fit'] + rand_rows(rng, 4, [1, 3, 6], binary, d)]
+        want3 = observe(m, lp, nbh)
+        call(m, more[0])
+        want4 = observe(m, lp, nbh)
+        for cl in clones:
+            got3 = observe(cl, lp, nbh)
+            call(cl, more[0])
+            got4 = observe(cl, lp, nbh)
+            if not same_result(got3, want3, 0) or not same_result(got4, want4, 0):
+                raise Failure('C19', 'after add_arm / remove_arm a copy / pickle of %s/%s answers differently'
+                              % (lp[0], nbh and nbh[0]), dict(case3, continuation=more), [got3, got4], [want3, want4],
+                              MODULE_OF.get((nbh or lp)[0]))
         yield case
 
 
@@ -1030,6 +1153,25 @@ def check_C20(env):
                                          ['warm_start', [[names[k], v] for k, v in feats.items()], 1.0]]},
                               {str(k): v['is_warm'] for k, v in sb.items()}, {str(k): v['is_warm'] for k, v in sa.items()},
                               'base_mab')
+            # ... nor what cold_arms lists, nor what a second warm start with other features does
+            feats2 = {1: [0.0, 1.0], 2: [1.0, 0.1], 3: [1.0, 0.2]}
+            calls_b = [['fit', [names[x] for x in rows[0]]] + rows[1:],
+                       ['warm_start', [[names[k], v] for k, v in feats.items()], 1.0]]
+            ca, cb = [names[x] for x in a.cold_arms], list(b.cold_arms)
+            if ca != cb:
+                raise Failure('C20', 'cold_arms after warm_start is %r with labels %r but (renamed) %r with labels 1, 2, 3'
+                              % (cb, list(names.values()), ca),
+                              {'arms': [names[x] for x in ARMS], 'lp': lp, 'seed': 8, 'calls': calls_b}, cb, ca, 'base_mab')
+            a.warm_start(feats2, 1.0)
+            b.warm_start({names[k]: v for k, v in feats2.items()}, 1.0)
+            ea = {names[k]: v for k, v in (a.predict_expectations([[1.0, 0.5]] if ctx else None)).items()}
+            eb = b.predict_expectations([[1.0, 0.5]] if ctx else None)
+            if not same_result(ea, eb, 1e-9):
+                raise Failure('C20', 'labels %r instead of 1, 2, 3 change the expectations after a second warm_start (%s)'
+                              % (list(names.values()), lp[0]),
+                              {'arms': [names[x] for x in ARMS], 'lp': lp, 'seed': 8,
+                               'calls': calls_b + [['warm_start', [[names[k], v] for k, v in feats2.items()], 1.0]]},
+                              eb, ea, 'base_mab')
         yield {}
     # reward shift / scale laws (every arm observed)
     rows = [[1, 2, 3, 1, 2, 3, 1], [4, 9, 1, 6, 3, 8, 2]]
@@ -1152,6 +1294,8 @@ def check_C12(env):
             # arm 4 is first seen with a single observation (one leaf), then with a batch that makes its tree split
             h = h + [['add_arm', 4], ['partial_fit', [4], [10], [[0, 0]]],
                      ['partial_fit', [4, 4, 4, 4], [1, 2, 9, 8], [[-3, -3], [-2, -3], [3, 3], [3, 2]]]]
+            # ... and a refit on a smaller history that omits arms which had data (and were queried): neutral 0 again
+            h = h + [['fit'] + rand_rows(rng, 7, [1, 2], False, 2)]
             case = {'arms': ARMS, 'lp': lp, 'np': nbh, 'calls': h}
             m = build(case)
             ref = oracle.RefBandit(ARMS, lp, nbh)
@@ -1346,8 +1490,13 @@ SIM_BANDITS = [(['EpsilonGreedy', {'epsilon': 0.0}], None), (['UCB1', {'alpha': 
                (['UCB1', {'alpha': 1.5}], ['KNearest', {'k': 3, 'metric': 'cityblock'}]),
                (['EpsilonGreedy', {'epsilon': 0.0}], ['Radius', {'radius': 3.0, 'metric': 'cityblock'}]),
                (['EpsilonGreedy', {'epsilon': 0.0}], ['LSHNearest', {'n_dimensions': 2, 'n_tables': 2}]),
-               (['EpsilonGreedy', {'epsilon': 0.0}], ['Clusters', {'n_clusters': 2}])]
-SIM_DETERMINISTIC = {0, 1, 4, 5, 6, 7, 8, 9, 10}
+               (['EpsilonGreedy', {'epsilon': 0.0}], ['Clusters', {'n_clusters': 2}]),
+               # sparse neighbourhoods with a configured (degenerate, hence draw-free) empty-neighbourhood distribution
+               (['EpsilonGreedy', {'epsilon': 0.0}], ['LSHNearest', {'n_dimensions': 7, 'n_tables': 1,
+                                                                     'no_nhood_prob_of_arm': [0, 0, 1]}]),
+               (['EpsilonGreedy', {'epsilon': 0.0}], ['Radius', {'radius': 0.5, 'metric': 'cityblock',
+                                                                 'no_nhood_prob_of_arm': [0, 1, 0]}])]
+SIM_DETERMINISTIC = {0, 1, 4, 5, 6, 7, 8, 9, 10, 11, 12}
 
 
 def _run_sim(case, quiet=True):
@@ -1402,7 +1551,7 @@ def check_C15(env):
                                                      (True, 10, True, 1), (False, 4, False, 1), (True, 1, True, 1),
                                                      (True, 0, False, 2), (True, 5, True, 3)):
         d, r, x = _sim_data(rng)
-        for group in ([0, 1, 4, 6, 8, 7], [2, 3, 5, 9, 10], [6], [7, 6]):
+        for group in ([0, 1, 4, 6, 8, 7], [2, 3, 5, 9, 10], [6], [7, 6], [11, 12]):
             if n_jobs > 1 and group != [0, 1, 4, 6, 8, 7]:
                 continue
             bandits = [SIM_BANDITS[i] for i in group if in_focus(env, *SIM_BANDITS[i])]
@@ -1492,6 +1641,49 @@ def check_C16(env):
                 if av[a]['count'] and not (mn[a]['sum'] <= av[a]['sum'] + 1e-9 and av[a]['sum'] <= mx[a]['sum'] + 1e-9):
                     raise Failure('C16', 'min / mean / max analyses of arm %r are not ordered' % a, case,
                                   [mn[a], av[a], mx[a]], None, 'simulator')
+        # the value credited to every test row, recomputed: the observed reward where the prediction is the logged decision,
+        # otherwise the predicted arm's statistic over the training rows - for a Radius bandit over the rows it had learned
+        # (training rows and earlier batches) within the radius of that test row, when there is one of that arm
+        train_stats = stats(train)
+        for k, (lp, nbh) in enumerate(bandits):
+            if nbh is not None and nbh[0] != 'Radius':
+                continue
+            name = 'b%d' % k
+            preds = list(sim.bandit_to_predictions[name])
+            bs = batch_size or len(test)
+            credited = {'min': [], 'mean': [], 'max': []}
+            for j, row in enumerate(test):
+                if preds[j] == d[row]:
+                    src = {'min': r[row], 'mean': r[row], 'max': r[row]}
+                else:
+                    src = train_stats[preds[j]]
+                    if nbh is not None:
+                        learned = train + test[:(j // bs) * bs]
+                        vals = [r[i] for i in learned if d[i] == preds[j] and
+                                oracle.dist(nbh[1]['metric'], x[i], x[row]) <= nbh[1]['radius']]
+                        if vals:
+                            src = {'min': min(vals), 'mean': float(np.mean(vals)), 'max': max(vals)}
+                for st_ in credited:
+                    credited[st_].append(src[st_])
+            res = {'min': sim.bandit_to_arm_to_stats_min[name], 'mean': sim.bandit_to_arm_to_stats_avg[name],
+                   'max': sim.bandit_to_arm_to_stats_max[name]}
+            scopes = [(None, 0, len(test))] if not batch_size else \
+                [(b_, b_ * bs, min((b_ + 1) * bs, len(test))) for b_ in range((len(test) + bs - 1) // bs)] + [('total', 0, len(test))]
+            for scope, lo, hi in scopes:
+                for st_ in ('min', 'mean', 'max'):
+                    got = res[st_] if scope is None else res[st_].get(scope)
+                    if got is None:
+                        continue
+                    for a in ARMS:
+                        vals = [credited[st_][j] for j in range(lo, hi) if preds[j] == a]
+                        if got[a]['count'] != len(vals) or (vals and not close(got[a]['sum'], float(sum(vals)), 1e-9)):
+                            raise Failure('C16', '%s evaluation of %s/%s, %s: arm %r is credited count %r sum %r, recomputation '
+                                          'gives count %d sum %r' % (st_, lp[0], nbh and nbh[0],
+                                                                     'all test rows' if scope in (None, 'total') else 'batch %d' % scope,
+                                                                     a, int(got[a]['count']), float(got[a]['sum']), len(vals), float(sum(vals))),
+                                          case, {kk: float(vv) if isinstance(vv, (int, float, np.floating, np.integer)) else vv
+                                                 for kk, vv in got[a].items()},
+                                          {'count': len(vals), 'sum': float(sum(vals))}, 'simulator')
         yield case
     # online simulation of a neighbourhood bandit over ThompsonSampling(binarizer): the raw rewards the simulator keeps for
     # its neighbourhood statistics stay row-aligned with the stored (converted) history after every batch
